@@ -1,12 +1,593 @@
 import Dashu.Proofs.Int.Div
+import Dashu.Props.GenInt
 /-
-  C02 — Integer division obeys the division identity with documented conventions.
+  C02 — Integer division obeys the division identity with documented conventions; division
+  through a prepared ConstDivisor gives the same quotient and remainder as plain division;
+  division by zero panics.
+
+  Every statement quantifies over all word sizes `W ≥ 1` and all operand lengths; operands are
+  canonical magnitudes (`TRepr.Canon W`) / well-formed signed values (`SRepr.WF W`), word lists
+  are `IsWords W`.  The definitions are the ones `drive_div` executes (`Dashu/Model/Int/Div.lean`).
+
+  Structure:
+  * §1 conventions: what `Int.tdiv/tmod` and `Int.ediv/emod` mean (identity, range, sign);
+  * §2 kernels: word / double-word divisors, Knuth D step and loop, multi-word division
+        (Burnikel–Ziegler above THRESHOLD_SIMPLE on both lengths is a FRONTIER kernel, defined as
+        its specification — `divRemInPlaceDCFrontier`);
+  * §3 dispatch: `/`, `%`, `div_rem` on magnitudes = `Nat` `/ %`, zero divisor = DivideByZero;
+  * §4 sign tables: the executable glue of the model equals the glue REGENERATED from /repo
+        (`Dashu.Gen`, Tie A), whose meaning is proved in `Dashu.Props.GenInt`; hence every IBig /
+        mixed form equals `Int.tdiv/tmod` resp. `Int.ediv/emod`; zero divisor = DivideByZero;
+  * §5 ConstDivisor = plain division.
 -/
 namespace Dashu.Props.C02
-open Dashu.Model Dashu.Model.Div
+open Dashu Dashu.Model Dashu.Model.Div Dashu.Gen Dashu.GluePrelude
 
-/-- inline / inline division: `checked_div` -/
-theorem div_rem_dword_exact (a b : Nat) :
-    divRemDword a b = if b = 0 then .error .divideByZero else .ok (.small (a / b), .small (a % b)) := rfl
+-- ================================================================== §1 conventions
+
+/-- truncating division: identity, `|r| < |b|`, `r = 0` or `sign r = sign a` -/
+theorem truncating_conventions (a b : Int) (hb : b ≠ 0) :
+    a = Int.tdiv a b * b + Int.tmod a b ∧ (Int.tmod a b).natAbs < b.natAbs ∧
+    (Int.tmod a b = 0 ∨ (Int.tmod a b).sign = a.sign) := by
+  refine ⟨by rw [Int.mul_comm]; exact (Int.mul_tdiv_add_tmod a b).symm, ?_, ?_⟩
+  · rw [Int.natAbs_tmod]; exact Nat.mod_lt _ (Int.natAbs_pos.mpr hb)
+  · have h := Int.sign_tmod a b
+    by_cases hd : b ∣ a
+    · left; rw [if_pos hd] at h; exact Int.sign_eq_zero_iff_zero.mp h
+    · right; rw [if_neg hd] at h; exact h
+
+/-- Euclidean division: identity and `0 ≤ r < |b|` -/
+theorem euclidean_conventions (a b : Int) (hb : b ≠ 0) :
+    a = (a / b) * b + a % b ∧ 0 ≤ a % b ∧ a % b < (b.natAbs : Int) :=
+  ⟨by rw [Int.mul_comm]; exact (Int.mul_ediv_add_emod a b).symm, Int.emod_nonneg a hb, Int.emod_lt a hb⟩
+
+-- ================================================================== §2 kernels
+
+/-- `div_by_word_in_place` (power-of-two shortcut, normalisation shift, remainder un-shift):
+    exact division of a slice by a non-zero word -/
+theorem div_by_word_exact (W rhs : Nat) (ws : List Nat) (h : IsWords W ws)
+    (hrhs : 0 < rhs) (hlt : rhs < 2 ^ W) :
+    ∃ qs r, divByWordInPlace W ws rhs = .ok (qs, r) ∧
+      val W qs * rhs + r = val W ws ∧ r < rhs ∧ qs.length = ws.length ∧ IsWords W qs :=
+  divByWordInPlace_spec W rhs ws h hrhs hlt
+
+/-- `div_by_dword_in_place` (power-of-two path for 2^W..2^(2W−1), 3by2/4by2 chain, odd leftover
+    word): exact division of a slice (≥ 2 words) by a double-word divisor -/
+theorem div_by_dword_exact (W rhs : Nat) (hW : 1 ≤ W) (ws : List Nat) (h : IsWords W ws)
+    (hlen : 2 ≤ ws.length) (hge : 2 ^ W ≤ rhs) (hlt : rhs < 2 ^ (2 * W)) :
+    ∃ qs r, divByDwordInPlace W ws rhs = .ok (qs, r) ∧
+      val W qs * rhs + r = val W ws ∧ r < rhs ∧ qs.length = ws.length ∧ IsWords W qs :=
+  divByDwordInPlace_spec W rhs hW ws h hlen hge hlt
+
+/-- `rem_by_word` -/
+theorem rem_by_word_exact (W rhs : Nat) (ws : List Nat) (h : IsWords W ws) (hne : ws ≠ [])
+    (hrhs : 0 < rhs) (hlt : rhs < 2 ^ W) : remByWord W ws rhs = .ok (val W ws % rhs) :=
+  remByWord_spec W rhs ws h hne hrhs hlt
+
+/-- `rem_by_dword` -/
+theorem rem_by_dword_exact (W rhs : Nat) (hW : 1 ≤ W) (ws : List Nat) (h : IsWords W ws)
+    (hlen : 2 ≤ ws.length) (hge : 2 ^ W ≤ rhs) (hlt : rhs < 2 ^ (2 * W)) :
+    remByDword W ws rhs = .ok (val W ws % rhs) :=
+  remByDword_spec W rhs hW ws h hlen hge hlt
+
+/-- Knuth D, one step (`div_rem_highest_word`): with a normalised divisor the 3-by-2 estimate (or
+    `B − 1`) is never too small and too large by at most one, the `borrow > lhs_top` test detects
+    exactly the too-large case, the add-back carries, and both `debug_assert!`s hold -/
+theorem knuth_step_exact (W : Nat) (hW : 1 ≤ W) (lhsTop : Nat) (lhsLo rhs : List Nat)
+    (hn : 2 ≤ rhs.length) (hL : rhs.length ≤ lhsLo.length)
+    (hlo : IsWords W lhsLo) (hr : IsWords W rhs)
+    (hnorm : 2 ^ (W * rhs.length) ≤ 2 * val W rhs)
+    (hA : val W (lhsLo.drop (lhsLo.length - rhs.length)) + lhsTop * 2 ^ (W * rhs.length)
+        < val W rhs * 2 ^ W) :
+    ∃ q win', divRemHighestWord W lhsTop lhsLo rhs (highestDword W rhs)
+        = .ok (q, lhsLo.take (lhsLo.length - rhs.length) ++ win') ∧
+      q < 2 ^ W ∧ win'.length = rhs.length ∧ IsWords W win' ∧ val W win' < val W rhs ∧
+      q * val W rhs + val W win'
+        = val W (lhsLo.drop (lhsLo.length - rhs.length)) + lhsTop * 2 ^ (W * rhs.length) :=
+  divRemHighestWord_spec W hW lhsTop lhsLo rhs hn hL hlo hr hnorm hA
+
+/-- `simple::div_rem_in_place` (Knuth D): lhs becomes [lhs % rhs, lhs / rhs], quotient carry ≤ 1 -/
+theorem simple_div_rem_exact (W : Nat) (hW : 1 ≤ W) (lhs rhs : List Nat) (hn : 2 ≤ rhs.length)
+    (hm : rhs.length ≤ lhs.length) (hl : IsWords W lhs) (hr : IsWords W rhs)
+    (hnorm : 2 ^ (W * rhs.length) ≤ 2 * val W rhs) :
+    ∃ out c, simpleDivRemInPlace W lhs rhs (highestDword W rhs) = .ok (out, c) ∧
+      out.length = lhs.length ∧ IsWords W out ∧ c ≤ 1 ∧ val W (out.take rhs.length) < val W rhs ∧
+      (val W (out.drop rhs.length) + c * 2 ^ (W * (lhs.length - rhs.length))) * val W rhs
+        + val W (out.take rhs.length) = val W lhs :=
+  simpleDivRemInPlace_spec W hW lhs rhs hn hm hl hr hnorm
+
+/-- `div_rem_large` / `div_large` / `rem_large` (normalize, shifted dividend with `q_top`,
+    in-place division, remainder shift-back with its `debug_assert_zero!`, `erase_front`):
+    exact quotient and remainder, canonical results -/
+theorem div_rem_large_exact (W : Nat) (hW : 1 ≤ W) (lhs rhs : List Nat) (hl : IsWords W lhs)
+    (hr : IsWords W rhs) (hn : 2 ≤ rhs.length) (hm : rhs.length ≤ lhs.length)
+    (htop : rhs.getD (rhs.length - 1) 0 ≠ 0) :
+    (∃ q r, divRemLarge W lhs rhs = .ok (q, r) ∧ q.value W = val W lhs / val W rhs ∧
+      r.value W = val W lhs % val W rhs ∧ q.Canon W ∧ r.Canon W) ∧
+    (∃ q, divLarge W lhs rhs = .ok q ∧ q.value W = val W lhs / val W rhs ∧ q.Canon W) ∧
+    (∃ r, remLarge W lhs rhs = .ok r ∧ r.value W = val W lhs % val W rhs ∧ r.Canon W) :=
+  divRemLarge_spec W hW lhs rhs hl hr hn hm htop
+
+-- ================================================================== §3 dispatch (UBig forms)
+
+/-- `UBig::div_rem` / `div_rem_euclid` / `div_rem_assign`: `(a / b, a % b)`; `b = 0` panics with
+    the documented divide-by-zero message -/
+theorem ubig_div_rem_exact (W : Nat) (hW : 1 ≤ W) (a b : TRepr) (ha : a.Canon W) (hb : b.Canon W) :
+    (b.value W = 0 → divRemRepr W a b = .error .divideByZero) ∧
+    (b.value W ≠ 0 → ∃ q r, divRemRepr W a b = .ok (q, r) ∧ q.value W = a.value W / b.value W ∧
+      r.value W = a.value W % b.value W ∧ q.Canon W ∧ r.Canon W) :=
+  divRemRepr_spec W hW a b ha hb
+
+/-- `UBig / UBig`, `div_euclid`, `/=` -/
+theorem ubig_div_exact (W : Nat) (hW : 1 ≤ W) (a b : TRepr) (ha : a.Canon W) (hb : b.Canon W) :
+    (b.value W = 0 → divRepr W a b = .error .divideByZero) ∧
+    (b.value W ≠ 0 → ∃ q, divRepr W a b = .ok q ∧ q.value W = a.value W / b.value W ∧ q.Canon W) :=
+  divRepr_spec W hW a b ha hb
+
+/-- `UBig % UBig`, `rem_euclid`, `%=` (a separate code path: `rem_by_word` / `rem_by_dword`) -/
+theorem ubig_rem_exact (W : Nat) (hW : 1 ≤ W) (a b : TRepr) (ha : a.Canon W) (hb : b.Canon W) :
+    (b.value W = 0 → remRepr W a b = .error .divideByZero) ∧
+    (b.value W ≠ 0 → ∃ r, remRepr W a b = .ok r ∧ r.value W = a.value W % b.value W ∧ r.Canon W) :=
+  remRepr_spec W hW a b ha hb
+
+/-- the division identity for the unsigned forms, spelled out -/
+theorem ubig_division_identity (W : Nat) (hW : 1 ≤ W) (a b : TRepr) (ha : a.Canon W) (hb : b.Canon W)
+    (hne : b.value W ≠ 0) :
+    ∃ q r, divRemRepr W a b = .ok (q, r) ∧
+      a.value W = q.value W * b.value W + r.value W ∧ r.value W < b.value W := by
+  obtain ⟨q, r, e, hq, hr, _, _⟩ := (divRemRepr_spec W hW a b ha hb).2 hne
+  refine ⟨q, r, e, ?_, ?_⟩
+  · rw [hq, hr, Nat.mul_comm]; exact (Nat.div_add_mod _ _).symm
+  · rw [hr]; exact Nat.mod_lt _ (Nat.pos_of_ne_zero hne)
+
+/-- `UBig::is_multiple_of`: true exactly when the remainder is zero; a zero divisor panics -/
+theorem ubig_is_multiple_of_exact (W : Nat) (hW : 1 ≤ W) (a b : TRepr) (ha : a.Canon W) (hb : b.Canon W) :
+    (b.value W = 0 → ubigIsMultipleOf W a b = .error .divideByZero) ∧
+    (b.value W ≠ 0 → ubigIsMultipleOf W a b = .ok (decide (a.value W % b.value W = 0))) := by
+  have ⟨d0, d1⟩ := remRepr_spec W hW a b ha hb
+  constructor
+  · intro h0; simp only [ubigIsMultipleOf, d0 h0, bind, Except.bind]
+  · intro hne
+    obtain ⟨r, e, hr, hc⟩ := d1 hne
+    simp only [ubigIsMultipleOf, e, bind, Except.bind, pure, Except.pure]
+    congr 1
+    rw [← hr]
+    by_cases hz : r.isZero = true
+    · have := (TRepr.isZero_iff r).mp hz
+      subst this; simp [TRepr.isZero]
+    · have := TRepr.value_ne_zero_of_not_isZero hc hz
+      simp [hz, this]
+
+-- ================================================================== §4 sign tables
+
+/-- the `Sign` of the regenerated glue for the model's `neg` flag -/
+def sgn (neg : Bool) : Sign := if neg then .Negative else .Positive
+
+theorem sgn_apply (neg : Bool) (m : Int) : (if neg then -m else m) = (sgn neg).apply m := by
+  cases neg <;> rfl
+
+theorem sgn_bne (x y : Bool) : sgn (x != y) = sgn x * sgn y := by cases x <;> cases y <;> rfl
+
+theorem sgn_not (x : Bool) : sgn (!x) = -sgn x := by cases x <;> rfl
+
+theorem srepr_value (W : Nat) (r : SRepr) : r.value W = (sgn r.neg).apply (r.mag.value W : Int) := by
+  unfold SRepr.value; cases r.neg <;> rfl
+
+theorem withSign_value' (W : Nat) (m : TRepr) (neg : Bool) :
+    (withSign m neg).value W = (sgn neg).apply (m.value W : Int) := by
+  rw [withSign_value]; exact sgn_apply neg _
+
+theorem srepr_value_zero_iff (W : Nat) (r : SRepr) : r.value W = 0 ↔ r.mag.value W = 0 := by
+  unfold SRepr.value; cases r.neg <;> simp
+
+theorem isZero_eq_decide {W : Nat} {r : TRepr} (hc : r.Canon W) : r.isZero = decide (r.value W = 0) := by
+  by_cases hz : r.isZero = true
+  · have := (TRepr.isZero_iff r).mp hz
+    subst this; simp [TRepr.isZero]
+  · have := TRepr.value_ne_zero_of_not_isZero hc hz
+    simp [hz, this]
+
+theorem cast_mod_zero (m n : Nat) : decide ((m : Int) % (n : Int) = 0) = decide (m % n = 0) := by
+  apply decide_eq_decide.mpr
+  rw [← Int.natCast_emod]; exact Int.natCast_eq_zero
+
+/-- `IBig / IBig` (and `IBig / UBig`, `UBig / IBig`, `/=`): the model's glue is the regenerated
+    `impl_ibig_div`, hence truncating division; a zero divisor panics -/
+theorem ibig_div_exact (W : Nat) (hW : 1 ≤ W) (a b : SRepr) (ha : a.WF W) (hb : b.WF W) :
+    (b.value W = 0 → ibigDiv W a b = .error .divideByZero) ∧
+    (b.value W ≠ 0 → ∃ q, ibigDiv W a b = .ok q ∧ q.WF W ∧
+      q.value W = impl_ibig_div (sgn a.neg) (a.mag.value W) (sgn b.neg) (b.mag.value W) ∧
+      q.value W = Int.tdiv (a.value W) (b.value W)) := by
+  have ⟨d0, d1⟩ := divRepr_spec W hW a.mag b.mag ha.1 hb.1
+  constructor
+  · intro h0
+    simp only [ibigDiv, d0 ((srepr_value_zero_iff W b).mp h0), bind, Except.bind]
+  · intro hne
+    have hm : b.mag.value W ≠ 0 := fun h => hne ((srepr_value_zero_iff W b).mpr h)
+    obtain ⟨q, e, hq, hc⟩ := d1 hm
+    have hgen : (withSign q (a.neg != b.neg)).value W
+        = impl_ibig_div (sgn a.neg) (a.mag.value W) (sgn b.neg) (b.mag.value W) := by
+      rw [withSign_value', hq, sgn_bne]
+      simp only [impl_ibig_div, mkIBig, div_, mul_]
+      rw [GenInt.with_sign_nonneg _ _ (Int.ediv_nonneg (Int.natCast_nonneg _) (Int.natCast_nonneg _)),
+        Int.natCast_ediv]
+    refine ⟨withSign q (a.neg != b.neg), ?_, withSign_wf W q _ hc, hgen, ?_⟩
+    · simp only [ibigDiv, e, bind, Except.bind, pure, Except.pure]
+    · rw [hgen, srepr_value W a, srepr_value W b]
+      exact GenInt.ibig_div_exact _ _ _ _ (Int.natCast_nonneg _) (by omega)
+
+/-- `IBig % IBig` (and `IBig % UBig`, `%=`): remainder with the sign of the dividend -/
+theorem ibig_rem_exact (W : Nat) (hW : 1 ≤ W) (a b : SRepr) (ha : a.WF W) (hb : b.WF W) :
+    (b.value W = 0 → ibigRem W a b = .error .divideByZero) ∧
+    (b.value W ≠ 0 → ∃ r, ibigRem W a b = .ok r ∧ r.WF W ∧
+      r.value W = impl_ibig_rem (sgn a.neg) (a.mag.value W) (sgn b.neg) (b.mag.value W) ∧
+      r.value W = Int.tmod (a.value W) (b.value W)) := by
+  have ⟨d0, d1⟩ := remRepr_spec W hW a.mag b.mag ha.1 hb.1
+  constructor
+  · intro h0
+    simp only [ibigRem, d0 ((srepr_value_zero_iff W b).mp h0), bind, Except.bind]
+  · intro hne
+    have hm : b.mag.value W ≠ 0 := fun h => hne ((srepr_value_zero_iff W b).mpr h)
+    obtain ⟨r, e, hr, hc⟩ := d1 hm
+    have hgen : (withSign r a.neg).value W
+        = impl_ibig_rem (sgn a.neg) (a.mag.value W) (sgn b.neg) (b.mag.value W) := by
+      rw [withSign_value', hr]
+      simp only [impl_ibig_rem, mkIBig, rem_]
+      rw [GenInt.with_sign_nonneg _ _ (Int.emod_nonneg _ (by omega)), Int.natCast_emod]
+    refine ⟨withSign r a.neg, ?_, withSign_wf W r _ hc, hgen, ?_⟩
+    · simp only [ibigRem, e, bind, Except.bind, pure, Except.pure]
+    · rw [hgen, srepr_value W a, srepr_value W b]
+      exact GenInt.ibig_rem_exact _ _ _ _ (Int.natCast_nonneg _) (by omega)
+
+/-- `IBig::div_rem` (and `IBig.div_rem(UBig)`, `div_rem_assign`) -/
+theorem ibig_div_rem_exact (W : Nat) (hW : 1 ≤ W) (a b : SRepr) (ha : a.WF W) (hb : b.WF W) :
+    (b.value W = 0 → ibigDivRem W a b = .error .divideByZero) ∧
+    (b.value W ≠ 0 → ∃ q r, ibigDivRem W a b = .ok (q, r) ∧ q.WF W ∧ r.WF W ∧
+      (q.value W, r.value W)
+        = impl_ibig_divrem (sgn a.neg) (a.mag.value W) (sgn b.neg) (b.mag.value W) ∧
+      q.value W = Int.tdiv (a.value W) (b.value W) ∧ r.value W = Int.tmod (a.value W) (b.value W)) := by
+  have ⟨d0, d1⟩ := divRemRepr_spec W hW a.mag b.mag ha.1 hb.1
+  constructor
+  · intro h0
+    simp only [ibigDivRem, d0 ((srepr_value_zero_iff W b).mp h0), bind, Except.bind]
+  · intro hne
+    have hm : b.mag.value W ≠ 0 := fun h => hne ((srepr_value_zero_iff W b).mpr h)
+    obtain ⟨q, r, e, hq, hr, hcq, hcr⟩ := d1 hm
+    have hgen : ((withSign q (a.neg != b.neg)).value W, (withSign r a.neg).value W)
+        = impl_ibig_divrem (sgn a.neg) (a.mag.value W) (sgn b.neg) (b.mag.value W) := by
+      rw [withSign_value', withSign_value', hq, hr, sgn_bne]
+      simp only [impl_ibig_divrem, mkIBig, div_rem, mul_]
+      rw [GenInt.with_sign_nonneg _ _ (Int.ediv_nonneg (Int.natCast_nonneg _) (Int.natCast_nonneg _)),
+        GenInt.with_sign_nonneg _ _ (Int.emod_nonneg _ (by omega)), Int.natCast_ediv, Int.natCast_emod]
+    have hspec := GenInt.ibig_divrem_exact (sgn a.neg) (sgn b.neg) (a.mag.value W) (b.mag.value W)
+      (Int.natCast_nonneg _) (by omega)
+    rw [← hgen, ← srepr_value W a, ← srepr_value W b] at hspec
+    refine ⟨_, _, ?_, withSign_wf W q _ hcq, withSign_wf W r _ hcr, hgen,
+      congrArg Prod.fst hspec, congrArg Prod.snd hspec⟩
+    simp only [ibigDivRem, e, bind, Except.bind, pure, Except.pure]
+
+/-- `IBig::div_euclid`: Euclidean quotient (the `add_one` correction for a negative dividend
+    with non-zero remainder) -/
+theorem ibig_div_euclid_exact (W : Nat) (hW : 1 ≤ W) (a b : SRepr) (ha : a.WF W) (hb : b.WF W) :
+    (b.value W = 0 → ibigDivEuclid W a b = .error .divideByZero) ∧
+    (b.value W ≠ 0 → ∃ q, ibigDivEuclid W a b = .ok q ∧ q.WF W ∧
+      q.value W = impl_ibig_div_euclid (sgn a.neg) (a.mag.value W) (sgn b.neg) (b.mag.value W) ∧
+      q.value W = a.value W / b.value W) := by
+  have ⟨d0, d1⟩ := divRemRepr_spec W hW a.mag b.mag ha.1 hb.1
+  constructor
+  · intro h0
+    simp only [ibigDivEuclid, d0 ((srepr_value_zero_iff W b).mp h0), bind, Except.bind]
+  · intro hne
+    have hm : b.mag.value W ≠ 0 := fun h => hne ((srepr_value_zero_iff W b).mpr h)
+    obtain ⟨q, r, e, hq, hr, hcq, hcr⟩ := d1 hm
+    have ⟨a1, a2⟩ := addOneRepr_spec W hW q hcq
+    have hq0 : (0 : Int) ≤ (a.mag.value W : Int) / (b.mag.value W : Int) :=
+      Int.ediv_nonneg (Int.natCast_nonneg _) (Int.natCast_nonneg _)
+    have hgen : (withSign (if (!a.neg || r.isZero) = true then q else addOneRepr W q) (a.neg != b.neg)).value W
+        = impl_ibig_div_euclid (sgn a.neg) (a.mag.value W) (sgn b.neg) (b.mag.value W) := by
+      rw [withSign_value', sgn_bne, isZero_eq_decide hcr, hr]
+      simp only [impl_ibig_div_euclid, mkIBig, div_rem, mul_, is_zero, add_one, into_typed]
+      cases han : a.neg
+      · simp only [sgn, Bool.not_false, Bool.true_or, if_true, Bool.false_eq_true, if_false]
+        rw [GenInt.with_sign_nonneg _ _ hq0, hq, Int.natCast_ediv]
+      · by_cases hzI : (a.mag.value W : Int) % (b.mag.value W : Int) = 0
+        · have hzN : a.mag.value W % b.mag.value W = 0 := by exact_mod_cast hzI
+          simp only [sgn, hzI, hzN, decide_true, Bool.not_true, Bool.false_or, if_true]
+          rw [GenInt.with_sign_nonneg _ _ hq0, hq, Int.natCast_ediv]
+        · have hzN : ¬ a.mag.value W % b.mag.value W = 0 := by
+            intro h; apply hzI; exact_mod_cast h
+          simp only [sgn, hzI, hzN, decide_false, Bool.not_true, Bool.false_or, Bool.false_eq_true,
+            if_false, if_true]
+          rw [GenInt.with_sign_nonneg _ _ (by omega), a1, hq]
+          push_cast; rfl
+    refine ⟨_, ?_, withSign_wf W _ _ (by split <;> assumption), hgen, ?_⟩
+    · simp only [ibigDivEuclid, e, bind, Except.bind, pure, Except.pure]
+    · rw [hgen, srepr_value W a, srepr_value W b]
+      exact GenInt.ibig_div_euclid_exact _ _ _ _ (Int.natCast_nonneg _) (by omega)
+
+/-- `IBig::rem_euclid` → `UBig`: Euclidean remainder (`mag1 − r` for a negative dividend with
+    non-zero remainder; the subtraction never underflows), both `Sub` impls it can use -/
+theorem ibig_rem_euclid_exact (W : Nat) (hW : 1 ≤ W) (a b : SRepr) (refVal : Bool)
+    (ha : a.WF W) (hb : b.WF W) :
+    (b.value W = 0 → ibigRemEuclid W a b refVal = .error .divideByZero) ∧
+    (b.value W ≠ 0 → ∃ r, ibigRemEuclid W a b refVal = .ok r ∧ r.Canon W ∧
+      (r.value W : Int) = impl_ibig_rem_euclid (sgn a.neg) (a.mag.value W) (sgn b.neg) (b.mag.value W) ∧
+      (r.value W : Int) = a.value W % b.value W) := by
+  have ⟨d0, d1⟩ := remRepr_spec W hW a.mag b.mag ha.1 hb.1
+  constructor
+  · intro h0
+    have := d0 ((srepr_value_zero_iff W b).mp h0)
+    unfold ibigRemEuclid
+    cases a.neg <;> simp [this, bind, Except.bind]
+  · intro hne
+    have hm : b.mag.value W ≠ 0 := fun h => hne ((srepr_value_zero_iff W b).mpr h)
+    obtain ⟨r, e, hr, hcr⟩ := d1 hm
+    have hrlt : r.value W < b.mag.value W := by rw [hr]; exact Nat.mod_lt _ (Nat.pos_of_ne_zero hm)
+    obtain ⟨x, ex, hx, hcx⟩ := TRepr.sub_ok W b.mag r refVal hb.1 hcr (Nat.le_of_lt hrlt)
+    have hspec := GenInt.ibig_rem_euclid_exact (sgn a.neg) (sgn b.neg) (a.mag.value W) (b.mag.value W)
+      (Int.natCast_nonneg _) (by omega)
+    rw [← srepr_value W a, ← srepr_value W b] at hspec
+    cases han : a.neg
+    · have hgen : (r.value W : Int)
+          = impl_ibig_rem_euclid (sgn false) (a.mag.value W) (sgn b.neg) (b.mag.value W) := by
+        simp only [impl_ibig_rem_euclid, mkUBig, rem_, sgn, Bool.false_eq_true, if_false]
+        rw [hr, Int.natCast_emod]
+      rw [han] at hspec
+      refine ⟨r, ?_, hcr, hgen, by rw [hgen]; exact hspec⟩
+      simp only [ibigRemEuclid, han, Bool.not_false, if_true, e]
+    · rw [han] at hspec
+      by_cases hz : r.isZero = true
+      · have hv0 : r.value W = 0 := by
+          have := (TRepr.isZero_iff r).mp hz; subst this; rfl
+        have hgen : (r.value W : Int)
+            = impl_ibig_rem_euclid (sgn true) (a.mag.value W) (sgn b.neg) (b.mag.value W) := by
+          have : (a.mag.value W : Int) % (b.mag.value W : Int) = 0 := by
+            rw [← Int.natCast_emod, ← hr, hv0]; rfl
+          simp only [impl_ibig_rem_euclid, mkUBig, rem_, sub_, is_zero, as_ref, into_typed, sgn, if_true,
+            this, decide_true]
+          rw [hv0]; rfl
+        refine ⟨r, ?_, hcr, hgen, by rw [hgen]; exact hspec⟩
+        simp only [ibigRemEuclid, han, Bool.not_true, Bool.false_eq_true, if_false, e, bind, Except.bind,
+          hz, if_true, pure, Except.pure]
+      · have hv0 : r.value W ≠ 0 := TRepr.value_ne_zero_of_not_isZero hcr hz
+        have hgen : (x.value W : Int)
+            = impl_ibig_rem_euclid (sgn true) (a.mag.value W) (sgn b.neg) (b.mag.value W) := by
+          have : ¬ (a.mag.value W : Int) % (b.mag.value W : Int) = 0 := by
+            rw [← Int.natCast_emod, ← hr]; exact_mod_cast hv0
+          simp only [impl_ibig_rem_euclid, mkUBig, rem_, sub_, is_zero, as_ref, into_typed, sgn, if_true,
+            this, decide_false, Bool.false_eq_true, if_false]
+          rw [← Int.natCast_emod, ← hr]
+          omega
+        refine ⟨x, ?_, hcx, hgen, by rw [hgen]; exact hspec⟩
+        simp only [ibigRemEuclid, han, Bool.not_true, Bool.false_eq_true, if_false, e, bind, Except.bind,
+          hz, ex, pure, Except.pure]
+
+/-- `IBig::div_rem_euclid` → `(IBig, UBig)` -/
+theorem ibig_div_rem_euclid_exact (W : Nat) (hW : 1 ≤ W) (a b : SRepr) (refVal : Bool)
+    (ha : a.WF W) (hb : b.WF W) :
+    (b.value W = 0 → ibigDivRemEuclid W a b refVal = .error .divideByZero) ∧
+    (b.value W ≠ 0 → ∃ q r, ibigDivRemEuclid W a b refVal = .ok (q, r) ∧ q.WF W ∧ r.Canon W ∧
+      (q.value W, (r.value W : Int))
+        = impl_ibig_divrem_euclid (sgn a.neg) (a.mag.value W) (sgn b.neg) (b.mag.value W) ∧
+      q.value W = a.value W / b.value W ∧ (r.value W : Int) = a.value W % b.value W) := by
+  have ⟨d0, d1⟩ := divRemRepr_spec W hW a.mag b.mag ha.1 hb.1
+  constructor
+  · intro h0
+    have := d0 ((srepr_value_zero_iff W b).mp h0)
+    unfold ibigDivRemEuclid
+    cases a.neg <;> simp [this, bind, Except.bind]
+  · intro hne
+    have hm : b.mag.value W ≠ 0 := fun h => hne ((srepr_value_zero_iff W b).mpr h)
+    obtain ⟨q, r, e, hq, hr, hcq, hcr⟩ := d1 hm
+    have hrlt : r.value W < b.mag.value W := by rw [hr]; exact Nat.mod_lt _ (Nat.pos_of_ne_zero hm)
+    obtain ⟨x, ex, hx, hcx⟩ := TRepr.sub_ok W b.mag r refVal hb.1 hcr (Nat.le_of_lt hrlt)
+    have ⟨a1, a2⟩ := addOneRepr_spec W hW q hcq
+    have hq0 : (0 : Int) ≤ (a.mag.value W : Int) / (b.mag.value W : Int) :=
+      Int.ediv_nonneg (Int.natCast_nonneg _) (Int.natCast_nonneg _)
+    have hspec := GenInt.ibig_divrem_euclid_exact (sgn a.neg) (sgn b.neg) (a.mag.value W)
+      (b.mag.value W) (Int.natCast_nonneg _) (by omega)
+    rw [← srepr_value W a, ← srepr_value W b] at hspec
+    cases han : a.neg
+    · have hgen : ((withSign q b.neg).value W, (r.value W : Int))
+          = impl_ibig_divrem_euclid (sgn false) (a.mag.value W) (sgn b.neg) (b.mag.value W) := by
+        simp only [impl_ibig_divrem_euclid, mkIBig, mkUBig, div_rem, sgn, Bool.false_eq_true, if_false]
+        rw [withSign_value', GenInt.with_sign_nonneg _ _ hq0, hq, hr, Int.natCast_ediv, Int.natCast_emod]
+        rfl
+      rw [han] at hspec
+      rw [← hgen] at hspec
+      refine ⟨withSign q b.neg, r, ?_, withSign_wf W q _ hcq, hcr, hgen,
+        congrArg Prod.fst hspec, congrArg Prod.snd hspec⟩
+      simp only [ibigDivRemEuclid, han, Bool.not_false, if_true, e, bind, Except.bind, pure, Except.pure]
+    · rw [han] at hspec
+      by_cases hz : r.isZero = true
+      · have hv0 : r.value W = 0 := by
+          have := (TRepr.isZero_iff r).mp hz; subst this; rfl
+        have hmod : (a.mag.value W : Int) % (b.mag.value W : Int) = 0 := by
+          rw [← Int.natCast_emod, ← hr, hv0]; rfl
+        have hgen : ((withSign q (!b.neg)).value W, (r.value W : Int))
+            = impl_ibig_divrem_euclid (sgn true) (a.mag.value W) (sgn b.neg) (b.mag.value W) := by
+          simp only [impl_ibig_divrem_euclid, mkIBig, mkUBig, div_rem, sub_, not_, HasNot.not_, neg_,
+            is_zero, add_one, as_ref, into_typed, sgn, if_true, hmod, decide_true, Bool.not_true,
+            Bool.false_eq_true, if_false]
+          rw [withSign_value', sgn_not, GenInt.with_sign_nonneg _ _ hq0, hq, hv0, Int.natCast_ediv]
+          rfl
+        rw [← hgen] at hspec
+        refine ⟨withSign q (!b.neg), r, ?_, withSign_wf W q _ hcq, hcr, hgen,
+          congrArg Prod.fst hspec, congrArg Prod.snd hspec⟩
+        simp only [ibigDivRemEuclid, han, Bool.not_true, Bool.false_eq_true, if_false, e, bind,
+          Except.bind, hz, if_true, pure, Except.pure]
+      · have hv0 : r.value W ≠ 0 := TRepr.value_ne_zero_of_not_isZero hcr hz
+        have hmod : ¬ (a.mag.value W : Int) % (b.mag.value W : Int) = 0 := by
+          rw [← Int.natCast_emod, ← hr]; exact_mod_cast hv0
+        have hgen : ((withSign (addOneRepr W q) (!b.neg)).value W, (x.value W : Int))
+            = impl_ibig_divrem_euclid (sgn true) (a.mag.value W) (sgn b.neg) (b.mag.value W) := by
+          simp only [impl_ibig_divrem_euclid, mkIBig, mkUBig, div_rem, sub_, not_, HasNot.not_, neg_,
+            is_zero, add_one, as_ref, into_typed, sgn, if_true, hmod, decide_false, Bool.not_false]
+          rw [withSign_value', sgn_not, GenInt.with_sign_nonneg _ _ (by omega), a1, hq]
+          have : (x.value W : Int) = (b.mag.value W : Int) - (a.mag.value W : Int) % (b.mag.value W : Int) := by
+            rw [← Int.natCast_emod, ← hr]; omega
+          rw [this]
+          push_cast; rfl
+        rw [← hgen] at hspec
+        refine ⟨withSign (addOneRepr W q) (!b.neg), x, ?_, withSign_wf W _ _ a2, hcx, hgen,
+          congrArg Prod.fst hspec, congrArg Prod.snd hspec⟩
+        simp only [ibigDivRemEuclid, han, Bool.not_true, Bool.false_eq_true, if_false, e, bind,
+          Except.bind, hz, ex, pure, Except.pure]
+
+/-- `UBig % IBig` → `UBig` -/
+theorem ubig_ibig_rem_exact (W : Nat) (hW : 1 ≤ W) (a : TRepr) (b : SRepr) (ha : a.Canon W) (hb : b.WF W) :
+    (b.value W = 0 → ubigIbigRem W a b = .error .divideByZero) ∧
+    (b.value W ≠ 0 → ∃ r, ubigIbigRem W a b = .ok r ∧ r.Canon W ∧
+      (r.value W : Int) = impl_ubig_ibig_rem .Positive (a.value W) (sgn b.neg) (b.mag.value W) ∧
+      (r.value W : Int) = Int.tmod (a.value W) (b.value W)) := by
+  have ⟨d0, d1⟩ := remRepr_spec W hW a b.mag ha hb.1
+  constructor
+  · intro h0; exact d0 ((srepr_value_zero_iff W b).mp h0)
+  · intro hne
+    have hm : b.mag.value W ≠ 0 := fun h => hne ((srepr_value_zero_iff W b).mpr h)
+    obtain ⟨r, e, hr, hcr⟩ := d1 hm
+    have hgen : (r.value W : Int)
+        = impl_ubig_ibig_rem .Positive (a.value W) (sgn b.neg) (b.mag.value W) := by
+      simp only [impl_ubig_ibig_rem, mkUBig, rem_]
+      rw [hr, Int.natCast_emod]
+    refine ⟨r, e, hcr, hgen, ?_⟩
+    rw [hgen, srepr_value W b]
+    exact GenInt.ubig_ibig_rem_exact _ _ _ (Int.natCast_nonneg _) (by omega)
+
+/-- `UBig.div_rem(IBig)` → `(IBig, UBig)` -/
+theorem ubig_ibig_div_rem_exact (W : Nat) (hW : 1 ≤ W) (a : TRepr) (b : SRepr) (ha : a.Canon W)
+    (hb : b.WF W) :
+    (b.value W = 0 → ubigIbigDivRem W a b = .error .divideByZero) ∧
+    (b.value W ≠ 0 → ∃ q r, ubigIbigDivRem W a b = .ok (q, r) ∧ q.WF W ∧ r.Canon W ∧
+      (q.value W, (r.value W : Int))
+        = impl_ubig_ibig_divrem .Positive (a.value W) (sgn b.neg) (b.mag.value W) ∧
+      q.value W = Int.tdiv (a.value W) (b.value W) ∧
+      (r.value W : Int) = Int.tmod (a.value W) (b.value W)) := by
+  have ⟨d0, d1⟩ := divRemRepr_spec W hW a b.mag ha hb.1
+  constructor
+  · intro h0
+    simp only [ubigIbigDivRem, d0 ((srepr_value_zero_iff W b).mp h0), bind, Except.bind]
+  · intro hne
+    have hm : b.mag.value W ≠ 0 := fun h => hne ((srepr_value_zero_iff W b).mpr h)
+    obtain ⟨q, r, e, hq, hr, hcq, hcr⟩ := d1 hm
+    have hgen : ((withSign q b.neg).value W, (r.value W : Int))
+        = impl_ubig_ibig_divrem .Positive (a.value W) (sgn b.neg) (b.mag.value W) := by
+      simp only [impl_ubig_ibig_divrem, mkIBig, mkUBig, div_rem]
+      rw [withSign_value', GenInt.with_sign_nonneg _ _
+        (Int.ediv_nonneg (Int.natCast_nonneg _) (Int.natCast_nonneg _)), hq, hr, Int.natCast_ediv,
+        Int.natCast_emod]
+    have hspec := GenInt.ubig_ibig_divrem_exact (sgn b.neg) (a.value W) (b.mag.value W)
+      (Int.natCast_nonneg _) (by omega)
+    rw [← hgen, ← srepr_value W b] at hspec
+    refine ⟨_, _, ?_, withSign_wf W q _ hcq, hcr, hgen, congrArg Prod.fst hspec, congrArg Prod.snd hspec⟩
+    simp only [ubigIbigDivRem, e, bind, Except.bind, pure, Except.pure]
+
+/-- `IBig::is_multiple_of`: true exactly when the (truncating) remainder is zero; zero divisor panics -/
+theorem ibig_is_multiple_of_exact (W : Nat) (hW : 1 ≤ W) (a b : SRepr) (ha : a.WF W) (hb : b.WF W) :
+    (b.value W = 0 → ibigIsMultipleOf W a b = .error .divideByZero) ∧
+    (b.value W ≠ 0 → ibigIsMultipleOf W a b = .ok (decide (Int.tmod (a.value W) (b.value W) = 0))) := by
+  have ⟨d0, d1⟩ := ibig_rem_exact W hW a b ha hb
+  constructor
+  · intro h0; simp only [ibigIsMultipleOf, d0 h0, bind, Except.bind]
+  · intro hne
+    obtain ⟨r, e, hwf, _, hr⟩ := d1 hne
+    simp only [ibigIsMultipleOf, e, bind, Except.bind, pure, Except.pure]
+    congr 1
+    rw [isZero_eq_decide hwf.1]
+    apply decide_eq_decide.mpr
+    rw [← hr]; exact (srepr_value_zero_iff W r).symm
+
+-- ================================================================== §5 ConstDivisor
+
+/-- `ConstDivisor::new(0)` panics with the documented divide-by-zero message; otherwise
+    `value()` returns the divisor -/
+theorem const_divisor_new_value (W : Nat) (hW : 1 ≤ W) (b : TRepr) (hb : b.Canon W) :
+    (b.value W = 0 → ConstDiv.new W b = .error .divideByZero) ∧
+    (b.value W ≠ 0 → ∃ c v, ConstDiv.new W b = .ok c ∧ c.value W = .ok v ∧ v.value W = b.value W ∧
+      v.Canon W) := by
+  have ⟨n0, n1⟩ := ConstDiv.new_spec W hW b hb
+  refine ⟨n0, fun hne => ?_⟩
+  obtain ⟨c, e, hv⟩ := n1 hne
+  obtain ⟨v, ev, h1, h2⟩ := ConstDiv.value_spec W _ c hv
+  exact ⟨c, v, e, ev, h1, h2⟩
+
+/-- division of a `UBig` through a prepared `ConstDivisor` (`/`, `%`, `div_rem`, and the assign
+    forms) gives the same quotient and remainder as plain division.
+    (On the tree before /repo commit 2941615 the `%` clause failed for one-word divisors with the
+    top bit set and inline dividends with high word ≥ divisor — see corpus/C02.) -/
+theorem const_divisor_eq_plain (W : Nat) (hW : 1 ≤ W) (a b : TRepr) (ha : a.Canon W) (hb : b.Canon W)
+    (hne : b.value W ≠ 0) :
+    ∃ c q r q' r' q'' r'', ConstDiv.new W b = .ok c ∧
+      divRemConst W a c = .ok (q, r) ∧ divConst W a c = .ok q' ∧ remConst W a c = .ok r' ∧
+      divRemRepr W a b = .ok (q'', r'') ∧
+      q.value W = q''.value W ∧ r.value W = r''.value W ∧
+      q'.value W = q''.value W ∧ r'.value W = r''.value W ∧
+      q''.value W = a.value W / b.value W ∧ r''.value W = a.value W % b.value W ∧
+      q.Canon W ∧ r.Canon W ∧ q'.Canon W ∧ r'.Canon W := by
+  obtain ⟨c, e, hv⟩ := (ConstDiv.new_spec W hW b hb).2 hne
+  obtain ⟨q, r, e1, h1, h2, h3, h4⟩ := divRemConst_spec W hW a _ c ha hv
+  obtain ⟨q', e2, h5, h6⟩ := divConst_spec W hW a _ c ha hv
+  obtain ⟨r', e3, h7, h8⟩ := remConst_spec W hW a _ c ha hv
+  obtain ⟨q'', r'', e4, h9, h10, _, _⟩ := (divRemRepr_spec W hW a b ha hb).2 hne
+  exact ⟨c, q, r, q', r', q'', r'', e, e1, e2, e3, e4, by rw [h1, h9], by rw [h2, h10], by rw [h5, h9],
+    by rw [h7, h10], h9, h10, h3, h4, h6, h8⟩
+
+theorem tdiv_of_sgn (neg : Bool) (m b : Nat) :
+    (sgn neg).apply ((m / b : Nat) : Int) = Int.tdiv ((sgn neg).apply (m : Int)) (b : Int) := by
+  cases neg
+  · show ((m / b : Nat) : Int) = Int.tdiv (m : Int) (b : Int)
+    rw [Int.tdiv_eq_ediv_of_nonneg (Int.natCast_nonneg m), Int.natCast_ediv]
+  · show -((m / b : Nat) : Int) = Int.tdiv (-(m : Int)) (b : Int)
+    rw [Int.neg_tdiv, Int.tdiv_eq_ediv_of_nonneg (Int.natCast_nonneg m), Int.natCast_ediv]
+
+theorem tmod_of_sgn (neg : Bool) (m b : Nat) :
+    (sgn neg).apply ((m % b : Nat) : Int) = Int.tmod ((sgn neg).apply (m : Int)) (b : Int) := by
+  cases neg
+  · show ((m % b : Nat) : Int) = Int.tmod (m : Int) (b : Int)
+    rw [Int.tmod_eq_emod_of_nonneg (Int.natCast_nonneg m), Int.natCast_emod]
+  · show -((m % b : Nat) : Int) = Int.tmod (-(m : Int)) (b : Int)
+    rw [Int.neg_tmod, Int.tmod_eq_emod_of_nonneg (Int.natCast_nonneg m), Int.natCast_emod]
+
+/-- division of an `IBig` through a prepared `ConstDivisor`: truncating quotient and remainder by
+    the (positive) divisor, i.e. what plain `IBig / UBig`, `IBig % UBig` give -/
+theorem const_divisor_ibig_exact (W : Nat) (hW : 1 ≤ W) (a : SRepr) (b : TRepr) (ha : a.WF W)
+    (hb : b.Canon W) (hne : b.value W ≠ 0) :
+    ∃ c q r q' r', ConstDiv.new W b = .ok c ∧
+      ibigDivRemConst W a c = .ok (q, r) ∧ ibigDivConst W a c = .ok q' ∧ ibigRemConst W a c = .ok r' ∧
+      q.value W = Int.tdiv (a.value W) (b.value W) ∧ r.value W = Int.tmod (a.value W) (b.value W) ∧
+      q'.value W = q.value W ∧ r'.value W = r.value W ∧ q.WF W ∧ r.WF W ∧ q'.WF W ∧ r'.WF W := by
+  obtain ⟨c, e, hv⟩ := (ConstDiv.new_spec W hW b hb).2 hne
+  obtain ⟨q, r, e1, h1, h2, h3, h4⟩ := divRemConst_spec W hW a.mag _ c ha.1 hv
+  obtain ⟨q', e2, h5, h6⟩ := divConst_spec W hW a.mag _ c ha.1 hv
+  obtain ⟨r', e3, h7, h8⟩ := remConst_spec W hW a.mag _ c ha.1 hv
+  refine ⟨c, withSign q a.neg, withSign r a.neg, withSign q' a.neg, withSign r' a.neg, e, ?_, ?_, ?_,
+    ?_, ?_, ?_, ?_, withSign_wf W q _ h3, withSign_wf W r _ h4, withSign_wf W q' _ h6, withSign_wf W r' _ h8⟩
+  · simp only [ibigDivRemConst, e1, bind, Except.bind, pure, Except.pure]
+  · simp only [ibigDivConst, e2, bind, Except.bind, pure, Except.pure]
+  · simp only [ibigRemConst, e3, bind, Except.bind, pure, Except.pure]
+  · rw [withSign_value', h1, srepr_value W a]; exact tdiv_of_sgn _ _ _
+  · rw [withSign_value', h2, srepr_value W a]; exact tmod_of_sgn _ _ _
+  · rw [withSign_value', withSign_value', h5, h1]
+  · rw [withSign_value', withSign_value', h7, h2]
+
+-- ================================================================== non-vacuity
+
+-- a 3-word canonical dividend and a 3-word canonical divisor with a non-normalised top word
+-- (shift = 63): the multi-word path with the shift carry and the Knuth step is exercised
+example : (TRepr.large [5, 7, 2 ^ 64 - 1]).Canon 64 ∧ (TRepr.large [3, 2 ^ 64 - 1, 1]).Canon 64 ∧
+    (divRemRepr 64 (.large [5, 7, 2 ^ 64 - 1]) (.large [3, 2 ^ 64 - 1, 1])).toOption.map
+      (fun p => (p.1.value 64, p.2.value 64))
+      = some (9223372036854775807, 510423550381407695278072259479345299464) := by
+  refine ⟨by decide, by decide, by decide⟩
+
+-- the Knuth-step hypotheses are met by a window that needs the add-back correction
+example : (divRemHighestWord 64 (2 ^ 63) [0, 0, 0] [2 ^ 64 - 1, 2 ^ 64 - 1, 2 ^ 63]
+    (highestDword 64 [2 ^ 64 - 1, 2 ^ 64 - 1, 2 ^ 63])).toOption.map Prod.fst = some (2 ^ 64 - 2) := by
+  decide
+
+-- a ConstDivisor of the class that was defective before commit 2941615
+example : ((ConstDiv.new 64 (.small 0xc000000000000010)).toOption.bind
+    (fun c => (remConst 64 (.small (2 ^ 128 - 1)) c).toOption)).map (TRepr.value 64)
+    = some 0xaaaaaaaaaaaaac7f := by decide
 
 end Dashu.Props.C02
